@@ -583,6 +583,36 @@ def one_key(P, R, rule='C20.MPT.7'):
     R.floor(rule, 1)
 
 
+def names_nonempty(P, R, rule='C20.GRD.5'):
+    """"Constructed once": the loader falls back to handing the bare module name to dlopen(), and dlopen("") is not a
+    failure - it returns the main program, whose global scope already holds the constructors of every loaded module,
+    so one of them runs a second time.  Wherever a name that is not part of a formatted path reaches dlopen(), it is
+    known to be non-empty: by a test in the same function, or at every call of that function."""
+    un = P.need_fn('module_load').unit
+    n = 0
+
+    def nonempty_known(f, site, a):
+        for g in f.guards(site.bid):
+            l = g[0]
+            first = isinstance(l, dict) and ((l.get('k') == 'idx' and sx(l.get('base')) == sx(a) and const_of(l.get('index')) == 0) or (l.get('k') == 'un' and l.get('op') == '*' and sx(l.get('e')) == sx(a)))
+            if first and ((g[1] == '!=' and const_of(g[2]) == 0) or (g[1] == '==' and isinstance(const_of(g[2]), int) and const_of(g[2]) != 0)):
+                return True
+        return False
+    for f in P.unit_fns(un):
+        for s in f.calls('dlopen'):
+            a = s.ev['args'][0] if s.ev['args'] else None
+            if not (is_var(a) and a['name'] in f.params):
+                continue            # a formatted path (never empty), or the program itself (NULL)
+            ok = nonempty_known(f, s, a)
+            if not ok:
+                pi = f.params.index(a['name'])
+                callers = P.callers(f, may=True)
+                ok = bool(callers) and all(pi < len(c.ev['args']) and (nonempty_known(c.fn, c, c.ev['args'][pi]) or (isinstance(c.ev['args'][pi], dict) and c.ev['args'][pi].get('k') == 'str' and c.ev['args'][pi].get('v'))) for c in callers)
+            n += 1
+            R.ob(rule, ok, s, 'the bare name handed to dlopen() in %s is known to be non-empty' % f.name, key='dlopen-name:%s' % f.name)
+    R.floor(rule, 1, 'dlopen calls on a bare name')
+
+
 def reverse_list_removal(P, R, rule='C20.TAB.1'):
     """Unloading removes the module from each dependency's reverse list with an in-place filter: the entry that is
     tested against the name is the entry that is read and kept (same index as the source of the copy), not the slot
@@ -645,6 +675,7 @@ def run(P, R, tier):
     both_directions(P, R)
     unload(P, R)
     reverse_list_removal(P, R)
+    names_nonempty(P, R)
     one_key(P, R)
     loading_context(P, R)
     edge_forms(P, R)
